@@ -100,6 +100,22 @@ def more_generated(rng) -> list[tuple[Any, str]]:
         add(f"OpaqueAttr({s!r})", lambda s=s: b.OpaqueAttr.from_strings("d", s))
         add(f"loc({s!r})", lambda s=s: b.FileLineColLoc(b.StringAttr(s), b.IntAttr(1), b.IntAttr(2)))
     add("BytesAttr(all bytes)", lambda: b.BytesAttr(bytes(range(256))))
+    # locations, nested
+    flc = b.FileLineColLoc(b.StringAttr("f.mlir"), b.IntAttr(3), b.IntAttr(14))
+    locs = {"unknown": lambda: b.UnknownLoc(), "file": lambda: flc, "name": lambda: b.NameLoc(b.StringAttr("n"), b.NoneAttr()),
+            "name(unknown)": lambda: b.NameLoc(b.StringAttr("n"), b.UnknownLoc()), "name(file)": lambda: b.NameLoc(b.StringAttr("a b"), flc),
+            "name(name(unknown))": lambda: b.NameLoc(b.StringAttr("o"), b.NameLoc(b.StringAttr("i"), b.UnknownLoc())),
+            "callsite": lambda: b.CallSiteLoc(flc, b.UnknownLoc()), "callsite(name)": lambda: b.CallSiteLoc(b.NameLoc(b.StringAttr("n"), b.UnknownLoc()), flc),
+            "fused": lambda: b.FusedLoc(b.ArrayAttr((flc, b.UnknownLoc())), b.NoneAttr()), "fused(name)": lambda: b.FusedLoc(b.ArrayAttr((b.NameLoc(b.StringAttr("n"), b.UnknownLoc()),)), b.NoneAttr()),
+            "fused()": lambda: b.FusedLoc(b.ArrayAttr(()), b.NoneAttr())}
+    for k, mk in locs.items():
+        add(f"loc {k}", mk)
+    # one printer, the same number under two float types: the spelling of one must not be reused for the other
+    for v in (0.1, 1 / 3, 0.10009765625, 123456792.0, 16777217.0, 1.0, 65504.0, 2.5, 1e-7, 3.0e38):
+        for narrow, wide in ((b.bf16, b.f32), (b.f16, b.f32), (b.f32, b.f64), (b.bf16, b.f64), (b.f64, b.f32)):
+            add(f"[{v!r} : {narrow}, {v!r} : {wide}]", lambda v=v, narrow=narrow, wide=wide: b.ArrayAttr([b.FloatAttr(v, narrow), b.FloatAttr(v, wide)]))
+            add(f"dict {v!r} {narrow} {wide}", lambda v=v, narrow=narrow, wide=wide: b.DictionaryAttr({"a": b.FloatAttr(v, narrow), "b": b.FloatAttr(v, wide),
+                                                                                                   "c": b.DenseIntOrFPElementsAttr.from_list(b.TensorType(wide, [2]), [v, 1.0])}))
     for t, vals in ((b.f16, [0.0, -0.0, 1.0, 65504.0, float("inf")]), (b.bf16, [1.0, 3.0e38]), (b.f32, [0.1, float("nan"), -0.0, 16777217.0]), (b.f64, [0.1, 5e-324, float("-inf"), 1e308]),
                     (b.i1, [0, 1, 1]), (b.i8, [-128, 127, 0]), (b.i32, [2 ** 31 - 1, -2 ** 31]), (b.i64, [2 ** 63 - 1, -2 ** 63, 0]), (b.IndexType(), [0, 7])):
         add(f"dense({t}, {vals})", lambda t=t, vals=vals: b.DenseIntOrFPElementsAttr.from_list(b.TensorType(t, [len(vals)]), vals))
